@@ -364,11 +364,17 @@ class Exec:
         self.world.app_log.step = len(self.actions)
         op = a['op']
         self._quiet_now = False
+        n_reqs = len(self.world.reqs)
         getattr(self, 'op_' + op)(a)
+        if op != 'advance':
+            for r in self.world.reqs[n_reqs:]:
+                r._explicit = True           # issued by the action itself, not by automation
         if a.get('settle', True) and op not in ('advance',):
             self.settle()
             self.quiet_points.append(len(self.actions))
         self._quiet_now = (a.get('settle', True) or op == 'advance')
+        for r in self.world.reqs[n_reqs:]:
+            r._inside_step = r.done          # answered within the step that issued it
         self.collect()
 
     def annotate(self, a):
